@@ -144,6 +144,8 @@ func (H) Gen(prop string, rng *rand.Rand, tier string) *core.Plan {
 	}
 	p.Ops = append(p.Ops, core.Op{K: "flush"}, core.Op{K: "query", S: fmt.Sprint(rng.Intn(1 << 30))}, core.Op{K: "query", S: fmt.Sprint(rng.Intn(1 << 30))})
 	p.Cfg["maporder"] = rng.Intn(2) // tape-chosen iteration order of Go maps in the code under test
+	p.Cfg["realmgr"] = rng.Intn(2)    // responses are received by lindb's own task manager on a real worker pool
+	p.Cfg["mgrworkers"] = rng.Intn(3) // 1-3 workers
 	p.Cfg["fieldmodes"] = rng.Intn(2)
 	if prop == "C10" {
 		p.Cfg["odd"] = rng.Intn(2) // tag values starting with '~' / containing a comma, filters that print alike
